@@ -54,6 +54,12 @@ pub struct CheckDef {
 
 impl CheckDef {
     pub fn family_of(&self, run: u64) -> &Family {
+        // development aid: VERIF_ONLY_FAMILY=<name> sends every run to one family
+        if let Ok(name) = std::env::var("VERIF_ONLY_FAMILY") {
+            if let Some(f) = self.family_named(&name) {
+                return f;
+            }
+        }
         let total: u64 = self.families.iter().map(|f| f.weight as u64).sum();
         let mut x = run % total.max(1);
         for f in self.families.iter() {
